@@ -190,3 +190,30 @@ def validate(traces: list, timeout: int = 900):
         if isinstance(p, dict) and "verdicts" in p:
             rep = p
     return res, rep
+
+
+def harvest_repo_style_tests(paths=("tests/style", "tests/test_document.py", "tests/test_use_case2.py", "tests/test_use_case3.py"), timeout=900):
+    """Every Document.insert_style made while the repository's own tests run (external plugin), as one-event traces."""
+    import subprocess
+
+    from .common import REPO
+
+    fd, path = tempfile.mkstemp(prefix="verif_harvest_styles_", suffix=".ndjson")
+    os.close(fd)
+    try:
+        env = dict(os.environ, ODFDO_VERIF="1", ODFDO_VERIF_STYLES="1", ODFDO_VERIF_TRACE=path,
+                   PYTHONPATH=str(Path(__file__).resolve().parent.parent) + os.pathsep + str(REPO / "src"))
+        have = [p for p in paths if (REPO / p).exists()]
+        r = subprocess.run(["/venv/bin/python", "-m", "pytest", "-q", "-p", "no:cacheprovider", "-p", "harness.pytest_trace_plugin", *have],
+                           cwd=REPO, env=env, capture_output=True, text=True, timeout=timeout)
+        events = []
+        for line in Path(path).read_text().splitlines():
+            try:
+                ev = json.loads(line)
+            except ValueError:
+                continue
+            if ev.pop("kind", None) == "style" and "post" in ev:
+                events.append(ev)
+        return r.returncode, events, r.stdout[-200:]
+    finally:
+        Path(path).unlink(missing_ok=True)
